@@ -35,7 +35,9 @@ Record c16step := mks {
   s_who : N;                (* 0 = user A, 1 = user B *)
   s_api : N;                (* 1 | 2 *)
   s_kind : c16kind;
-  s_class : N;              (* 0: 2xx, 1: 409 exists, 2: 403 quota, 3: 404, 4: 400, 9: anything else *)
+  s_class : N;              (* 0: 2xx, 1: 409 exists, 2: 403 quota, 3: 404, 4: 400, 9: anything else;
+                               7: a 2xx vector search whose reported distances are not the distances from the query to
+                               the vectors of the returned points (judged by the harness on small integers) *)
   s_ret_cols : list bytes;  (* collection ids in the answer *)
   s_ret_pts : list bytes;   (* point ids in the answer *)
   s_va : c16view;           (* view of A after the step *)
@@ -105,7 +107,8 @@ Fixpoint judge (c : c16case) (i : N) (st : state) (va vb : c16view) (steps : lis
       let vx' := if actorA then s_va s else s_vb s in
       let vy' := if actorA then s_vb s else s_va s in
       let iso := first_fail
-        [ (api_eqb vy vy', 101);
+        [ (negb (s_class s =? 7), 106);
+          (api_eqb vy vy', 101);
           (dirs_eqb vy vy', 104);
           (* (the own view of a forbidden id is not taken: no 102 judgement for it) *)
           (negb (user_ok_b idx && foreign (s_ret_cols s) (vw_cols vy) (vw_cols vx) (vw_cols vx')), 102);
